@@ -27,6 +27,7 @@ MC_CFG = """CONSTANTS
   UploadRounds = {uprounds}
   UploadSizes = {upsizes}
   MaxBurst = {maxburst}
+  DynChoices = {dyns}
   Paths = {paths}
 INIT Init
 NEXT Next
@@ -77,7 +78,8 @@ def mc(ctx, name, **kw):
              maxmut=kw.get("maxmut", 0), maxclose=kw.get("maxclose", 0), maxks=kw.get("maxks", 0),
              paths="TRUE" if kw.get("paths") else "FALSE",
              bursts=tla_set(kw.get("bursts", [])), uprounds=tla_set(kw.get("uprounds", [])),
-             upsizes=tla_set(kw.get("upsizes", [])), maxburst=kw.get("maxburst", 0))
+             upsizes=tla_set(kw.get("upsizes", [])), maxburst=kw.get("maxburst", 0),
+             dyns=tla_set(kw.get("dyns", [False])))
     with open("%s/%s.cfg" % (ctx.scratch, name), "w") as f:
         f.write(MC_CFG.format(**d))
     res = ctx.tlc("Record_MC", cfg=name, workers=kw.get("workers", 8), timeout=kw.get("timeout", 1500),
